@@ -31,7 +31,7 @@ let opt_hex = function "-" -> None | h -> Some (bytes_of_hex h)
 let args_of (s : string) : marg list =
   if s = "-" then [] else
   List.map (fun a ->
-      if a = "x" then AOther
+      if a = "x" || a = "h" then AOther        (* "h" = a unix fd argument: any other type for the matcher *)
       else
         let v = bytes_of_hex (String.sub a 1 (String.length a - 1)) in
         match a.[0] with 's' -> AStr v | 'o' -> APath v | _ -> failwith "bad arg") (String.split_on_char ',' s)
@@ -58,8 +58,8 @@ let dump_rule (r : rule) : string =
 
 let conns (l : n list) : string = if l = [] then "-" else String.concat "," (List.map (fun c -> string_of_int (int_of_n c)) l)
 
-let world = ref { w_mm = []; w_names = [] }
-let sworld = ref { sw_bus = []; sw_names = [] }
+let world = ref { w_mm = []; w_names = []; w_caps = [] }
+let sworld = ref { sw_bus = []; sw_names = []; sw_caps = [] }
 let limit = ref (n_of_int 512)
 
 let reply_s = function RepOk -> "ok" | RepLimits -> "limits" | RepInvalid -> "invalid" | RepDenied -> "denied" | RepNotFound -> "notfound" | RepOkThenNotFound -> "oknotfound"
@@ -118,6 +118,7 @@ let do_step (e : event) : string =
        | ORouting RNoOwner -> "U"
        | ORouting RToDriver -> "V"
        | ORouting RRejected -> "J"
+       | ORouting RRefusedFds -> "K"
        | ORouting (RDelivered l) -> "D " ^ conns l
        | OSignals l -> "G " ^ (if l = [] then "-" else String.concat ";" (List.map (fun (n, rc) -> hex_of_bytes n ^ ":" ^ conns rc) l))))
   ^ " | " ^ sp ^ cl
@@ -159,11 +160,15 @@ let () =
       Printf.sprintf "%s | %s %s" ms ss (if ca = "-" then cb else if cb = "-" then ca else ca ^ "," ^ cb));
   reg "uint" (fun [h] -> match parse_uint (bytes_of_hex h) with
       | None -> "-" | Some (v, e) -> string_of_n v ^ " " ^ string_of_int (int_of_n e));
-  reg "reset" (fun [l] -> world := { w_mm = []; w_names = [] }; sworld := { sw_bus = []; sw_names = [] };
+  reg "reset" (fun [l] -> world := { w_mm = []; w_names = []; w_caps = [] }; sworld := { sw_bus = []; sw_names = []; sw_caps = [] };
                 limit := n_of_int (int_of_string l); "ok");
-  reg "hello" (fun [c; u] -> do_step (EvHello (n_of_int (int_of_string c), bytes_of_hex u)));
+  (* hello <conn> <unique> [fd]: "fd" = the connection negotiated NEGOTIATE_UNIX_FD *)
+  reg "hello" (fun (c :: u :: rest) -> do_step (EvHello (n_of_int (int_of_string c), bytes_of_hex u, rest = ["fd"])));
   reg "own" (fun [c; u] -> do_step (EvOwn (n_of_int (int_of_string c), bytes_of_hex u)));
   reg "add" (fun [c; t] -> do_step (EvAdd (n_of_int (int_of_string c), bytes_of_hex t)));
   reg "rm" (fun [c; t] -> do_step (EvRemove (n_of_int (int_of_string c), bytes_of_hex t)));
-  reg "send" (fun (c :: mf) -> do_step (EvSend (n_of_int (int_of_string c), msg_of mf)));
+  (* the UNIX_FDS count of a probe = the number of "h" arguments *)
+  reg "send" (fun (c :: mf) ->
+      let nfds = (match mf with [_; _; _; _; _; a] -> List.length (List.filter (fun x -> x = "h") (String.split_on_char ',' a)) | _ -> 0) in
+      do_step (EvSend (n_of_int (int_of_string c), msg_of mf, n_of_int nfds)));
   reg "disc" (fun [c] -> do_step (EvDisconnect (n_of_int (int_of_string c))))
